@@ -65,7 +65,10 @@ class ConnCheck(F.Check):
 
         ex = explore.Explorer(make_run, check, dev_kinds=('app', 'fault'), max_dev=cfg.get('max_dev', 1),
                               cache=cfg.get('cache', True), max_runs=cfg.get('max_runs', 400000))      # safety cap, reported if hit
+        ex.stop_when = lambda: res.counters['violating_cases'] >= 300
         ex.run()
+        if ex.stopped_early:
+            res.caps.append('search stopped after %d violating cases in cfg %r' % (res.counters['violating_cases'], cfg.get('name')))
         res.states |= ex.states
         res.transitions |= ex.edges
         res.counters['truncated_runs'] += ex.truncated
